@@ -8,7 +8,7 @@ NOTES = {
  "int-vs-decimal": "integer-typed stored value vs decimal literal in the search clause: fopOnNumber converts UnsignedVal and compareNumberDte compares the truncated SignedVal (and range pruning drops the block), so a>1.5 / a>=2.5 / a=2.0 answer wrongly on int columns",
  "col-absent-in-block": "a block in which the column never occurs: whether its events match depends on the time range and on neighbouring blocks (stale per-column state), so events without the field are returned or events are lost",
  "bool-column": "an equality on a bool column returns nothing when it is the whole search but does filter inside AND/OR, so AND/OR are not intersection/union of their operands' results",
- "plain": "NOT applied to a free-text term is ignored inside NOT/AND NOT/NOT(... OR ...): events containing the term are returned",
+ "negated-free-text": "NOT applied to a free-text term is ignored inside NOT/AND NOT/NOT(... OR ...): events containing the term are returned",
 }
 f = json.load(open("known_findings.json"))
 have = {(x["property"], x["fingerprint"]) for x in f}
